@@ -276,6 +276,49 @@ func runC19(c *mon.Ctx) {
 			c.Count("keys."+kc.String(), 1)
 		}
 		cs.Sample(map[string]any{"validUntil": md2.ValidUntil.Format(time.RFC3339Nano), "now": now.Format(time.RFC3339Nano), "hours": hours})
+		// the returned descriptors belong to the caller, who may edit them in place (every string, every element of
+		// every list): whatever later calls on any provider return must not be affected
+		Scribble(reflect.ValueOf(md))
+		Scribble(reflect.ValueOf(md2))
+	}
+}
+
+// Scribble overwrites, in place, every settable string, integer and boolean reachable from v
+// through pointers, structs and slice elements (slices keep their length and backing array).
+func Scribble(v reflect.Value) {
+	switch v.Kind() {
+	case reflect.Ptr, reflect.Interface:
+		if !v.IsNil() {
+			Scribble(v.Elem())
+		}
+	case reflect.Struct:
+		if _, isTime := v.Interface().(time.Time); isTime {
+			if v.CanSet() {
+				v.Set(reflect.ValueOf(time.Unix(1, 0)))
+			}
+			return
+		}
+		for i := 0; i < v.NumField(); i++ {
+			if v.Type().Field(i).IsExported() {
+				Scribble(v.Field(i))
+			}
+		}
+	case reflect.Slice, reflect.Array:
+		for i := 0; i < v.Len(); i++ {
+			Scribble(v.Index(i))
+		}
+	case reflect.String:
+		if v.CanSet() {
+			v.SetString("urn:verif:scribbled-by-the-caller")
+		}
+	case reflect.Bool:
+		if v.CanSet() {
+			v.SetBool(!v.Bool())
+		}
+	case reflect.Int, reflect.Int64, reflect.Int32:
+		if v.CanSet() {
+			v.SetInt(v.Int() + 7)
+		}
 	}
 }
 
